@@ -1,53 +1,66 @@
-// PROBE (design phase, not framework code): harness module appended to src/connection/mtud.rs in a scratch copy (final variant with transmuted Instant)
+// PROBE (design phase, not framework code): harness module appended to quinn-proto/src/connection/mtud.rs in a scratch copy; results in DESIGN.md appendix A
 #[cfg(kani)]
 mod verif_kani {
     use super::*;
+    use crate::Duration;
     #[repr(C)]
     struct RawTs { secs: i64, nanos: u32 }
     fn inst(secs: i64) -> Instant { unsafe { std::mem::transmute::<RawTs, Instant>(RawTs { secs, nanos: 0 }) } }
-
-    use crate::Duration;
     fn any_search() -> SearchState {
         SearchState { lower_bound: kani::any(), upper_bound: kani::any(), minimum_change: kani::any(), last_probed_mtu: kani::any(), in_flight_probe: kani::any(), lost_probe_count: kani::any() }
     }
-    /// symbolic enabled MtuDiscovery in phase Initial or Searching (no Instants needed)
-    fn any_mtud(cfg_upper: u16, peer_max: u16, min_mtu: u16) -> MtuDiscovery {
-        let config = MtuDiscoveryConfig { interval: Duration::from_secs(600), upper_bound: cfg_upper, minimum_change: kani::any(), black_hole_cooldown: Duration::from_secs(60) };
-        let phase = if kani::any() { Phase::Initial } else { Phase::Searching(any_search()) };
+    fn any_mtud(cfg_upper: u16, peer_max: u16, min_mtu: u16, min_change: u16) -> MtuDiscovery {
+        let config = MtuDiscoveryConfig { interval: Duration::from_secs(600), upper_bound: cfg_upper, minimum_change: min_change, black_hole_cooldown: Duration::from_secs(60) };
+        let phase = match kani::any::<u8>() % 3 { 0 => Phase::Initial, 1 => Phase::Searching(any_search()), _ => Phase::Complete(inst(kani::any::<u16>() as i64)) };
         MtuDiscovery {
             current_mtu: kani::any(),
             state: Some(EnabledMtuDiscovery { phase, peer_max_udp_payload_size: peer_max, config }),
             black_hole_detector: BlackHoleDetector::new(min_mtu),
         }
     }
-    fn inv(m: &MtuDiscovery, cfg_upper: u16, peer_max: u16, min_mtu: u16) -> bool {
+    /// candidate representation invariant
+    fn inv(m: &MtuDiscovery, peer_max: u16, min_mtu: u16, min_change: u16) -> bool {
         let st = m.state.as_ref().unwrap();
-        if m.current_mtu > peer_max { return false; }
-        if m.current_mtu < min_mtu.min(peer_max) { return false; }
+        if m.current_mtu > peer_max || m.current_mtu < min_mtu.min(peer_max) { return false; }
         match &st.phase {
             Phase::Searching(s) => {
-                s.lower_bound <= peer_max && s.upper_bound <= peer_max && s.last_probed_mtu <= peer_max
+                s.minimum_change == min_change
+                    && s.lower_bound <= peer_max && s.upper_bound <= peer_max && s.last_probed_mtu <= peer_max
                     && s.last_probed_mtu >= 1 && s.lost_probe_count <= MAX_PROBE_RETRANSMITS
-                    && s.upper_bound <= cfg_upper.max(s.lower_bound) && s.lower_bound <= s.last_probed_mtu
-                    && s.last_probed_mtu <= s.upper_bound.max(s.lower_bound)
             }
             _ => true,
         }
     }
     #[kani::proof]
+    #[kani::unwind(4)]
     fn mtud_poll_transmit_bounds() {
-        let cfg_upper: u16 = kani::any(); let peer_max: u16 = kani::any(); let min_mtu: u16 = kani::any();
-        kani::assume(peer_max >= 1200 && min_mtu >= 1);
-        let mut m = any_mtud(cfg_upper, peer_max, min_mtu);
-        kani::assume(inv(&m, cfg_upper, peer_max, min_mtu));
+        let cfg_upper: u16 = kani::any(); let peer_max: u16 = kani::any(); let min_mtu: u16 = kani::any(); let min_change: u16 = kani::any();
+        kani::assume(peer_max >= 1200 && min_mtu >= 1 && min_change >= 1);
+        let mut m = any_mtud(cfg_upper, peer_max, min_mtu, min_change);
+        kani::assume(inv(&m, peer_max, min_mtu, min_change));
         let cur = m.current_mtu;
-        let now = inst(1000);
-        let r = m.poll_transmit(now, kani::any());
+        let had_probe = m.in_flight_mtu_probe().is_some();
+        let r = m.poll_transmit(inst(1000), kani::any());
         assert!(m.current_mtu == cur);
-        if let Some(p) = r {
-            assert!(p <= peer_max);
-            assert!(p <= cfg_upper.max(cur));
-        }
-        assert!(inv(&m, cfg_upper, peer_max, min_mtu));
+        if let Some(p) = r { assert!(p <= peer_max); assert!(!had_probe); assert!(m.in_flight_mtu_probe().is_some()); }
+        assert!(inv(&m, peer_max, min_mtu, min_change));
+        core::mem::forget(m);
+    }
+    #[kani::proof]
+    #[kani::unwind(4)]
+    fn mtud_on_acked_only_probe_moves_mtu() {
+        let cfg_upper: u16 = kani::any(); let peer_max: u16 = kani::any(); let min_mtu: u16 = kani::any(); let min_change: u16 = kani::any();
+        kani::assume(peer_max >= 1200 && min_mtu >= 1 && min_change >= 1);
+        let mut m = any_mtud(cfg_upper, peer_max, min_mtu, min_change);
+        kani::assume(inv(&m, peer_max, min_mtu, min_change));
+        let cur = m.current_mtu;
+        let probe = m.in_flight_mtu_probe();
+        let probed_size = match &m.state.as_ref().unwrap().phase { Phase::Searching(s) => Some(s.last_probed_mtu), _ => None };
+        let pn: u64 = kani::any();
+        let space = if kani::any() { SpaceId::Data } else { SpaceId::Handshake };
+        let was_probe = m.on_acked(space, pn, kani::any());
+        if was_probe { assert!(space == SpaceId::Data && probe == Some(pn) && Some(m.current_mtu) == probed_size); } else { assert!(m.current_mtu == cur); }
+        assert!(inv(&m, peer_max, min_mtu, min_change));
+        core::mem::forget(m);
     }
 }
